@@ -61,9 +61,9 @@ def build_world(repo_root="/repo") -> World:
     externs_arrow.install(w)
     externs_duck.install(w)
     externs_sqlglot.install(w)
-    from . import c_checks, c_cli, c_conn, c_cursor, c_server, c_types, c_variables
+    from . import c_checks, c_cli, c_conn, c_cursor, c_cursor_exec, c_info_schema, c_server, c_types, c_variables
 
-    for m in (c_cursor, c_cli, c_types, c_server, c_checks, c_conn, c_variables):
+    for m in (c_cursor, c_cli, c_types, c_server, c_checks, c_conn, c_variables, c_info_schema, c_cursor_exec):
         m.install(w)
     return w
 
